@@ -660,6 +660,20 @@ def ev_comprehension(ex, n, st, spec, b):
             st.pc.append(z3.And(0 <= n2, n2 <= n_))
             n_ = n2
         return SeqV(fresh("comp.arr", AII), n_, None)
+    if kind == "range" and not g.ifs and isinstance(g.target, ast.Name) and not seq[2]:
+        # [f(e) for e in range(lo, hi)] with symbolic bounds and a scalar element: the sequence of length max(hi - lo, 0)
+        # whose t-th element is f(lo + t)
+        lo, hi = seq[0], seq[1]
+        e0 = fresh("comp." + g.target.id, I)
+        bb = dict(b)
+        bb[g.target.id] = e0
+        sub = St(st.env, st.pc + [lo <= e0, e0 < hi], st.dec)
+        mark = len(ex.cx.pending)
+        v = ex.ev(n.elt, sub, spec, bb)
+        if is_z3(v) and len(ex.cx.pending) == mark:
+            t_ = z3.Int("t!rc")
+            return SeqV(z3.Lambda([t_], lo + t_), z3.If(hi > lo, hi - lo, 0), lambda x, _v=v, _e=e0: z3.substitute(_v, (_e, x)))
+        del ex.cx.pending[mark:]
     if kind != "items":
         h = ex.cx.spec.get("__comprehension__")
         if h is not None:
